@@ -1,19 +1,20 @@
 --------------------------- MODULE MC_ReadsLateral ---------------------------
 (***************************************************************************)
 (* Design-level theorem about the lateral push-down rule (Reads §7):        *)
-(* for EVERY filter AST of depth <= Depth over a menu of leaves, and every   *)
-(* account of a small universe (addresses of 1..3 segments sharing prefixes, *)
-(* with and without metadata): whenever the rule says "safe", evaluating     *)
-(* with the address patterns also applied inside the lateral account lookup  *)
-(* selects exactly the same rows.                                            *)
-(*   PushSafe        the theorem as stated                                   *)
+(* for EVERY filter AST of depth <= Depth over a menu of leaves (partial,    *)
+(* prefix and exact address patterns, an $in on the address, a metadata      *)
+(* match), and every account of a small universe (addresses of 1..3 segments *)
+(* sharing prefixes, with and without metadata): whenever the rule says      *)
+(* "safe", evaluating with the collected address patterns also applied       *)
+(* inside the lateral account lookup selects exactly the same rows.          *)
+(*   PushSafe        the theorem as stated (must hold, WithIn TRUE or FALSE) *)
 (*   PushSafeNoIn    the theorem restricted to filters without an $in on an  *)
 (*                   address                                                 *)
-(* With WithIn = FALSE the menu has no $in leaf and PushSafe must hold.      *)
-(* With WithIn = TRUE PushSafeNoIn must hold; PushSafe is expected to FAIL:  *)
-(* the rule counts an $in leaf as an address filter when it decides that an   *)
-(* $or is homogeneous, but the operand of $in is never collected, so the      *)
-(* lateral drops the accounts only the $in branch selects.                   *)
+(* Negative control (checks/reads_common.py): with Reads!CountInAsAddress-   *)
+(* Filter = TRUE -- the rule as the repository had it before commit 55870c0: *)
+(* an $in leaf counted as an address filter when deciding that an $or is     *)
+(* homogeneous, although its operand is never collected -- TLC must refute   *)
+(* PushSafe with $or[address match "orders:", address $in [...]].            *)
 (***************************************************************************)
 EXTENDS Reads
 
